@@ -22,6 +22,9 @@ type GlobCase struct {
 	Tree  []string  `json:"tree"` // initial files (relative paths)
 	Dirs  []string  `json:"dirs,omitempty"`
 	Steps [][]GEdit `json:"steps"` // edits applied between expansions
+	// DirLink "name->target": a symbolic link to a directory inside the tree. Whether a wildcard reaches files
+	// through such a link is not settled by the property (accept either); everything else stays exact
+	DirLink string `json:"dir_link,omitempty"`
 }
 
 // GEdit adds or removes one file.
@@ -65,6 +68,9 @@ func (globScen) Gen(r *Rng, cfg GenConfig) any {
 			c.Deps = append(c.Deps, p)
 		}
 	}
+	if r.Chance(1, 6) {
+		c.DirLink = Pick(r, []string{"vendor->src", "lib/ext->../src/deep", "zlink->src/deep"})
+	}
 	for s := r.Range(1, 4); s > 0; s-- {
 		var step []GEdit
 		for k := r.Range(1, 3); k > 0; k-- {
@@ -107,6 +113,12 @@ func (globScen) Exec(w *World, cc any, prop string) *Result {
 		if conflictsWithFile(model, rel) {
 			return
 		}
+		if c.DirLink != "" {
+			ln := strings.SplitN(c.DirLink, "->", 2)[0]
+			if rel == ln || strings.HasPrefix(rel, ln+"/") {
+				return
+			}
+		}
 		model[rel] = "x"
 		writeFile(filepath.Join(root, filepath.FromSlash(rel)), "x")
 	}
@@ -114,6 +126,23 @@ func (globScen) Exec(w *World, cc any, prop string) *Result {
 		put(f)
 	}
 	pats := append(append([]string{}, c.Deps...), c.Outs...)
+	linkName := ""
+	if c.DirLink != "" {
+		parts := strings.SplitN(c.DirLink, "->", 2)
+		linkName = parts[0]
+		target := filepath.Join(root, filepath.FromSlash(filepath.Dir(linkName)), filepath.FromSlash(parts[1]))
+		must(os.MkdirAll(target, 0o755))
+		must(os.MkdirAll(filepath.Dir(filepath.Join(root, filepath.FromSlash(linkName))), 0o755))
+		must(os.Symlink(filepath.FromSlash(parts[1]), filepath.Join(root, filepath.FromSlash(linkName))))
+		res.count("fault_present:directory_symlink_in_tree")
+	}
+	// throughLink: rel names a regular file reached through the directory link and matching the pattern
+	throughLink := func(p, rel string) bool {
+		if linkName == "" || !strings.HasPrefix(rel, linkName+"/") {
+			return false
+		}
+		return !strings.HasPrefix(rel, ".") && GlobMatch(p, rel)
+	}
 
 	expand := func(label string) (map[string][]string, bool) {
 		tree, err := parser.New(src).Parse()
@@ -186,7 +215,14 @@ func (globScen) Exec(w *World, cc any, prop string) *Result {
 		}
 		for _, p := range pats {
 			want := RefGlob(model, p)
-			got := dedupSorted(first[p])
+			var got []string
+			for _, f := range dedupSorted(first[p]) {
+				if throughLink(p, f) {
+					res.count("accept_either:file_reached_through_directory_symlink")
+					continue
+				}
+				got = append(got, f)
+			}
 			res.event("state%d %q -> %v", state, p, first[p])
 			res.distinct(p + "|" + strings.Join(sortedKeys(model), ","))
 			hiddenFirst := false
@@ -208,7 +244,7 @@ func (globScen) Exec(w *World, cc any, prop string) *Result {
 				res.violate("C05", "same-on-every-expansion", "glob:reexpansion", "pattern %q gave %v and then %v on an unchanged tree", p, first[p], second[p])
 				return false
 			}
-			if len(first[p]) != len(got) {
+			if len(first[p]) != len(dedupSorted(first[p])) {
 				res.count("accept_either:duplicate_entries_in_expansion")
 			}
 		}
@@ -308,6 +344,9 @@ func (globScen) Shrinks(cc any) []any {
 	}
 	for i := range c.Dirs {
 		add(func(n *GlobCase) { n.Dirs = append(n.Dirs[:i:i], n.Dirs[i+1:]...) })
+	}
+	if c.DirLink != "" {
+		add(func(n *GlobCase) { n.DirLink = "" })
 	}
 	for si, st := range c.Steps {
 		for ei := range st {
